@@ -32,6 +32,14 @@ from typing import Any
 
 from . import DEPS, PYTHON, REPO, ROOT, ensure_deps
 
+
+def safe_repr(obj: Any) -> str:
+    """json fall-back: workloads hand the library objects whose repr() raises on purpose"""
+    try:
+        return repr(obj)
+    except Exception:
+        return f"<{type(obj).__name__} object whose repr() raises>"
+
 CHECKS = {
     "C01": "checks.c01_teardown",
     "C02": "checks.c02_scoping",
@@ -64,7 +72,7 @@ def case_rng(prop: str, seed: int, idx: int, salt: str = "") -> random.Random:
 
 def short_hash(obj: Any) -> str:
     if not isinstance(obj, str):
-        obj = json.dumps(obj, sort_keys=True, default=repr)
+        obj = json.dumps(obj, sort_keys=True, default=safe_repr)
     return hashlib.blake2b(obj.encode(), digest_size=8).hexdigest()
 
 
@@ -210,7 +218,7 @@ def worker_main(argv: list[str]) -> int:
     res["counters"] = dict(res["counters"])
     res["wall_s"] = time.monotonic() - t0
     with open(out, "w") as f:
-        json.dump(res, f, default=repr)
+        json.dump(res, f, default=safe_repr)
     return 0
 
 
@@ -359,7 +367,7 @@ def finish(mod: Any, prop: str, tier: str, seed: int, plan: dict[str, Any], m: d
         ROOT, "evidence" if os.path.realpath(REPO) == "/repo" else ".scratch_evidence")
     os.makedirs(evdir, exist_ok=True)
     path = os.path.join(evdir, f"{prop}.json")
-    text = json.dumps(ev, indent=1, default=repr)
+    text = json.dumps(ev, indent=1, default=safe_repr)
     try:
         validate_evidence(json.loads(text))
     except Exception as exc:  # evidence that does not validate is reported, never hidden
@@ -394,7 +402,7 @@ def finish(mod: Any, prop: str, tier: str, seed: int, plan: dict[str, Any], m: d
             rp = os.path.join(ROOT, "replays", f"{prop}_{tier}_{seed}_{v['idx']}_{short_hash(v.get('key') or '')}.json")
             with open(rp, "w") as f:
                 json.dump({"property": prop, "case": v["case"], "logging": bool(v.get("logging")), "key": v.get("key"), "msg": v.get("msg"),
-                           "witness": v.get("witness")}, f, indent=1, default=repr)
+                           "witness": v.get("witness")}, f, indent=1, default=safe_repr)
             print(f"   violation[{v.get('key')}]: {v.get('msg')}")
             print(f"VIOLATION property={prop} replay={rp}")
         print(f"   total violating observations: {m['n_violations']} ({len(new_violations)} kept and not known)")
@@ -422,7 +430,7 @@ def replay(prop: str, path: str) -> int:
     rc = 0
     for v in r.get("violations") or []:
         print(f"   violation[{v.get('key')}]: {v.get('msg')}")
-        print(json.dumps(v.get("witness"), indent=1, default=repr)[:4000])
+        print(json.dumps(v.get("witness"), indent=1, default=safe_repr)[:4000])
         if (prop, v.get("key")) in known:
             print(f"KNOWN-FINDING: property={prop} {v.get('key')}")
         else:
